@@ -940,7 +940,7 @@ _load_benign_patches()
 mut('c19-dict-entry-branch-dropped', ['C19'], M,
     [("        elif c == '{':\n            x = find_end(i + 1, '{', '}')\n            yield compoundSig[i:x + 1]\n            i = x\n\n", "")], ['C19.D3'],
     note='with the dict-entry branch gone "{" is yielded as a one-character type')
-twin('c05-prefix-unbounded-signature', ['C05'], 'd5d9176', ['C05.D5'], 'pre-fix twin')
+twin('c05-prefix-unbounded-signature', ['C05'], ['4e8d468', 'd5d9176'], ['C05.D5'], 'pre-fix twin (the later type test touches the same lines and is reverted too)')
 
 # round-3 seeds as regression mutants ---------------------------------------------
 mut('c04-length-guard-before-line-loop', ['C04', 'C06', 'C07'], PR,
@@ -1062,6 +1062,28 @@ mut('c13-remove-after-head-append-form', ['C13', 'C14'], BU,
     [("                    if caller in queue:\n                        # it was waiting for the name: no second entry\n                        queue.remove(caller)\n                    del queue[0]\n                    queue.insert(0, caller)",
       "                    del queue[0]\n                    queue.insert(0, caller)\n                    if queue.count(caller) > 1:\n                        queue.remove(caller)")],
     ['C13.D4', 'C14.D3'], note='the old waiting entry is removed after the head insert: list.remove drops the head')
+
+# ---- round 7 (Python pitfalls) -------------------------------------------------------
+twin('c05-prefix-signature-not-a-string', ['C05'], '4e8d468', ['C05.D5'],
+     'pre-fix twin: a SIGNATURE field holding an array passed the length guard')
+twin('c06-prefix-cookie-deleted-twice', ['C06'], '13cf9ea', ['C06.D2'],
+     'pre-fix twin: the reject path deleted the cookie a second time')
+mut('c07-command-word-lowercased', ['C07', 'C06'], AU,
+    [("        m = getattr(self, '_auth_' + cmd.decode(), None)\n        if m:\n            m(args)\n        else:\n            raise DBusAuthenticationFailed(",
+      "        m = getattr(self, '_auth_' + cmd.decode().upper(), None)\n        if m:\n            m(args)\n        else:\n            raise DBusAuthenticationFailed(")],
+    ['C07.D5'], note='case-insensitive commands: "ok <guid>" is taken for OK')
+mut('c10-search-loop-variable', ['C10'], OB,
+    [("        for x in o.getInterfaces():\n            if msg.interface:\n                if x.name == msg.interface:\n                    i = x\n                    break\n            else:\n                if msg.member in x.methods:\n                    i = x\n                    break\n",
+      "        for i in o.getInterfaces():\n            if msg.interface:\n                if i.name == msg.interface:\n                    break\n            elif msg.member in i.methods:\n                break\n")],
+    ['C10.DP'], note='no match leaves the last interface in i')
+mut('ok-c10-search-loop-for-else', ['C10'], OB,
+    [("        for x in o.getInterfaces():\n            if msg.interface:\n                if x.name == msg.interface:\n                    i = x\n                    break\n            else:\n                if msg.member in x.methods:\n                    i = x\n                    break\n",
+      "        for i in o.getInterfaces():\n            if msg.interface:\n                if i.name == msg.interface:\n                    break\n            elif msg.member in i.methods:\n                break\n        else:\n            i = None\n")],
+    kind='benign', note='search loop on the loop variable itself, with for-else')
+mut('c17-getall-skips-none-values', ['C17', 'C16'], OB,
+    [("                v = getattr(self, p.attr_name)\n                if p.iprop.sig in marshal.variantClassMap:\n                    v = marshal.variantClassMap[p.iprop.sig](v)\n                r[p.pname] = v",
+      "                v = getattr(self, p.attr_name)\n                if v is None:\n                    return\n                if p.iprop.sig in marshal.variantClassMap:\n                    v = marshal.variantClassMap[p.iprop.sig](v)\n                r[p.pname] = v")],
+    ['C17.D1', 'C16.D3'], note='a readable property is left out depending on its value')
 
 # ---- the seeded changes of independent sub-agents (seeded/<id>/patch.diff) as break entries:
 # each must make the check of the property it was written against exit 1
